@@ -23,7 +23,7 @@ def run(module: str, cfg: str, workdir: Path, *, workers: int = 4, env: dict | N
     """Run TLC on spec/<module>.tla with spec/<cfg>.  Returns dict(stdout, states, distinct, depth, wall, ok, error)."""
     workdir.mkdir(parents=True, exist_ok=True)
     meta = workdir / ("meta_" + re.sub(r"\W", "_", cfg) + "_" + str(os.getpid()) + "_" + str(time.time_ns() % 10**9))
-    cmd = ["java", "-XX:+UseParallelGC", f"-Xmx{heap}", "-cp", _classpath(), "tlc2.TLC",
+    cmd = ["java", "-XX:+UseParallelGC", "-Xss64m", f"-Xmx{heap}", "-cp", _classpath(), "tlc2.TLC",
            "-workers", str(workers), "-metadir", str(meta), "-noGenerateSpecTE",
            "-config", str(SPEC / cfg)]
     if simulate:
